@@ -438,15 +438,15 @@ impl Property for C15 {
         // ---------------- dual data
         let names: Vec<String> = (0..rows).map(|j| format!("y{}", j)).collect();
         let kind = c.data_kind % 3;
-        let check_sens = |v: &mut Verdict, x: f64, value: f64, grad: &[f64], hess_max: f64, what: &str| -> bool {
-            let (exp, mag) = sref(x, 0);
+        let check_sens = |v: &mut Verdict, x: f64, m: usize, value: f64, grad: &[f64], hess_max: f64, what: &str| -> bool {
+            let (exp, mag) = sref(x, m);
             if !((value - exp).abs() <= 1e-9 * cond * (mag + cscale)) {
-                v.fail(format!("{} | value differs from the float spline", what), format!("x={:?}: {:e} vs {:e}", x, value, exp));
+                v.fail(format!("{} | value differs from the float spline", what), format!("x={:?} m={}: {:e} vs {:e}", x, m, value, exp));
                 return false;
             }
             for j in 0..rows {
-                let e: f64 = (0..n).map(|i| reference[i].eval(t, x, 0).0 * unit_cols[i][j]).sum();
-                let sc: f64 = (0..n).map(|i| (reference[i].eval(t, x, 0).0 * unit_cols[i][j]).abs()).sum::<f64>() + 1.0;
+                let e: f64 = (0..n).map(|i| reference[i].eval(t, x, m).0 * unit_cols[i][j]).sum();
+                let sc: f64 = (0..n).map(|i| (reference[i].eval(t, x, m).0 * unit_cols[i][j]).abs()).sum::<f64>() + 1.0;
                 if !((grad[j] - e).abs() <= 1e-9 * cond * sc) {
                     v.fail(format!("{} | sensitivity to a datum is not the spline of the unit data", what), format!("x={:?} d/dy{}: {:e} vs {:e} (cond {:.1e})", x, j, grad[j], e, cond));
                     return false;
@@ -483,10 +483,10 @@ impl Property for C15 {
                 });
                 match r {
                     Ok((Ok(a), Ok(b), true, (Ok(Number::Dual(m0)), Ok(Number::Dual(m1)), true))) => {
-                        if !check_sens(&mut v, *x, a.real(), &a.gradient1(names.clone()).to_vec(), 0.0, "first-order data") {
+                        if !check_sens(&mut v, *x, 0, a.real(), &a.gradient1(names.clone()).to_vec(), 0.0, "first-order data") {
                             return v;
                         }
-                        if !check_sens(&mut v, *x, b.real(), &b.gradient1(names.clone()).to_vec(), 0.0, "first-order data, dual abscissa") {
+                        if !check_sens(&mut v, *x, 0, b.real(), &b.gradient1(names.clone()).to_vec(), 0.0, "first-order data, dual abscissa") {
                             return v;
                         }
                         let (d1, dm) = sref(*x, 1);
@@ -498,6 +498,31 @@ impl Property for C15 {
                         if m0.real().to_bits() != a.real().to_bits() || m1.real().to_bits() != b.real().to_bits() {
                             v.fail("mapped_value differs from direct evaluation", "Dual spline".to_string());
                             return v;
+                        }
+                        // first derivative of the spline at a dual abscissa: value s', data sensitivities
+                        // the unit-data splines' derivatives, abscissa sensitivity s''
+                        if k >= 2 {
+                            match catch(|| spd.ppdnev_single_dual(&Dual::new(*x, vec!["x".to_string()]), 1)) {
+                                Ok(Ok(b1)) => {
+                                    if !check_sens(&mut v, *x, 1, b1.real(), &b1.gradient1(names.clone()).to_vec(), 0.0, "first-order data, dual abscissa, first derivative") {
+                                        return v;
+                                    }
+                                    let (d2v, d2m) = sref(*x, 2);
+                                    let gx = b1.gradient1(vec!["x".to_string()])[0];
+                                    if !((gx - d2v).abs() <= 1e-9 * cond * (d2m + cscale)) {
+                                        v.fail("first-order data, dual abscissa, first derivative | sensitivity to x is not the spline's second derivative", format!("x={:?}: {:e} vs {:e}", x, gx, d2v));
+                                        return v;
+                                    }
+                                }
+                                Ok(Err(_)) => {
+                                    v.fail("first-order spline | derivative evaluation at a dual abscissa refused", "".to_string());
+                                    return v;
+                                }
+                                Err(p) => {
+                                    v.fail(format!("first-order spline evaluation | panic | {}", p.site()), p.message);
+                                    return v;
+                                }
+                            }
                         }
                     }
                     Ok(other) => {
@@ -536,10 +561,10 @@ impl Property for C15 {
                 match r {
                     Ok((Ok(a), Ok(b), true, (Ok(Number::Dual2(m0)), Ok(Number::Dual2(m1)), true))) => {
                         let hmax = |d: &Dual2| d.gradient2(names.clone()).iter().fold(0.0f64, |m, x| if x.is_nan() || x.abs() > m.abs() { *x } else { m });
-                        if !check_sens(&mut v, *x, a.real(), &a.gradient1(names.clone()).to_vec(), hmax(&a), "second-order data") {
+                        if !check_sens(&mut v, *x, 0, a.real(), &a.gradient1(names.clone()).to_vec(), hmax(&a), "second-order data") {
                             return v;
                         }
-                        if !check_sens(&mut v, *x, b.real(), &b.gradient1(names.clone()).to_vec(), hmax(&b), "second-order data, dual abscissa") {
+                        if !check_sens(&mut v, *x, 0, b.real(), &b.gradient1(names.clone()).to_vec(), hmax(&b), "second-order data, dual abscissa") {
                             return v;
                         }
                         let (d2v, d2m) = sref(*x, 2);
@@ -551,6 +576,48 @@ impl Property for C15 {
                         if m0.real().to_bits() != a.real().to_bits() || m1.real().to_bits() != b.real().to_bits() {
                             v.fail("mapped_value differs from direct evaluation", "Dual2 spline".to_string());
                             return v;
+                        }
+                        // first sensitivity to x and the mixed (x, datum) terms: the derivative of the
+                        // spline and of each unit-data spline
+                        let (d1v, d1m) = sref(*x, 1);
+                        let gx = b.gradient1(vec!["x".to_string()])[0];
+                        if !((gx - d1v).abs() <= 1e-9 * cond * (d1m + cscale)) {
+                            v.fail("second-order data, dual abscissa | sensitivity to x is not the spline's derivative", format!("x={:?}: {:e} vs {:e}", x, gx, d1v));
+                            return v;
+                        }
+                        let mut xn = vec!["x".to_string()];
+                        xn.extend(names.iter().cloned());
+                        let hm = b.gradient2(xn);
+                        for j in 0..rows {
+                            let e: f64 = (0..n).map(|i| reference[i].eval(t, *x, 1).0 * unit_cols[i][j]).sum();
+                            let sc: f64 = (0..n).map(|i| (reference[i].eval(t, *x, 1).0 * unit_cols[i][j]).abs()).sum::<f64>() + 1.0;
+                            if !((hm[[0, j + 1]] - e).abs() <= 1e-9 * cond * sc) || !((hm[[j + 1, 0]] - e).abs() <= 1e-9 * cond * sc) {
+                                v.fail("second-order data, dual abscissa | mixed sensitivity (x, datum) is not the derivative of the unit-data spline", format!("x={:?} datum {}: {:e} / {:e} vs {:e}", x, j, hm[[0, j + 1]], hm[[j + 1, 0]], e));
+                                return v;
+                            }
+                        }
+                        if k >= 2 {
+                            match catch(|| spd.ppdnev_single_dual2(&Dual2::new(*x, vec!["x".to_string()]), 1)) {
+                                Ok(Ok(b1)) => {
+                                    if !check_sens(&mut v, *x, 1, b1.real(), &b1.gradient1(names.clone()).to_vec(), hmax(&b1), "second-order data, dual abscissa, first derivative") {
+                                        return v;
+                                    }
+                                    let (d2v, d2m) = sref(*x, 2);
+                                    let gx1 = b1.gradient1(vec!["x".to_string()])[0];
+                                    if !((gx1 - d2v).abs() <= 1e-9 * cond * (d2m + cscale)) {
+                                        v.fail("second-order data, dual abscissa, first derivative | sensitivity to x is not the spline's second derivative", format!("x={:?}: {:e} vs {:e}", x, gx1, d2v));
+                                        return v;
+                                    }
+                                }
+                                Ok(Err(_)) => {
+                                    v.fail("second-order spline | derivative evaluation at a dual abscissa refused", "".to_string());
+                                    return v;
+                                }
+                                Err(p) => {
+                                    v.fail(format!("second-order spline evaluation | panic | {}", p.site()), p.message);
+                                    return v;
+                                }
+                            }
                         }
                     }
                     Ok(other) => {
@@ -610,7 +677,7 @@ impl Property for C15 {
     }
 
     fn rule(&self) -> String {
-        "random (order 2-6, knot sequence as in C14, site layout: Greville sites with end rows of derivative order 0-2, or for order 4 with distinct interior knots the callers' natural / clamped layout [a,a,interior knots,b,b] with second / first derivative end conditions; data: random floats or samples of a random polynomial of degree < k with matching end-derivative values; data kind float / first-order / second-order with datum j tagged y{j}; optional 1-6 extra sites solved by least squares; 1-4 evaluation points as in C14). Site sets are admissible by construction; draws whose collocation matrix has cond >= 1e8 (own estimate) are skipped and counted. Oracle: coefficients x reference basis (C14 model) reproduce every data row and end condition; polynomial data are reproduced with all derivatives m <= k everywhere; library evaluation == coefficients x reference basis; dual abscissae return s', s'' as sensitivities; for dual data d s(x)/d y_j == row of the independently inverted collocation matrix (and the library's own unit-data spline), zero Hessian; the 3x3 spline-kind x abscissa-kind table (mapped_value and direct) returns matching kinds and refuses first/second-order mixes; unsolved evaluation, wrong site counts and y/tau length mismatches are errors. Non-trivial: k >= 3, >= 1 interior knot, and non-polynomial or dual data.".into()
+        "random (order 2-6, knot sequence as in C14, site layout: Greville sites with end rows of derivative order 0-2, or for order 4 with distinct interior knots the callers' natural / clamped layout [a,a,interior knots,b,b] with second / first derivative end conditions; data: random floats or samples of a random polynomial of degree < k with matching end-derivative values; data kind float / first-order / second-order with datum j tagged y{j}; optional 1-6 extra sites solved by least squares; 1-4 evaluation points as in C14). Site sets are admissible by construction; draws whose collocation matrix has cond >= 1e8 (own estimate) are skipped and counted. Oracle: coefficients x reference basis (C14 model) reproduce every data row and end condition; polynomial data are reproduced with all derivatives m <= k everywhere; library evaluation == coefficients x reference basis; dual abscissae (plain tagged and composite) return s', s'' as sensitivities, for the spline and for every basis function through the four public dual basis entry points; splines with dual data evaluated at a dual abscissa (m = 0 and m = 1) carry d/dx = next derivative, d/dy_j = unit-data spline (its derivative for m = 1) and, at second order, the mixed (x, y_j) terms; for dual data d s(x)/d y_j == row of the independently inverted collocation matrix (and the library's own unit-data spline), zero Hessian; the 3x3 spline-kind x abscissa-kind table (mapped_value and direct) returns matching kinds and refuses first/second-order mixes; unsolved evaluation, wrong site counts and y/tau length mismatches are errors. Non-trivial: k >= 3, >= 1 interior knot, and non-polynomial or dual data.".into()
     }
 
     fn floors(&self, tier: Tier) -> Vec<Floor> {
